@@ -35,6 +35,12 @@ def make(rng, cls):
     data = sc.good_reply() + b''.join(frames) + bad + rest
     chunks = limit_chunks(cut(data, random_cuts(rng, len(data), rng.choice([0, 1, 4, 10 ** 6 if len(data) < 3000 else 5]))))
     sc.env = reads(chunks) + [('wait', 1, ('eof',))]
+    r = rng.random()
+    if r < 0.25:
+        # the application has already called close(): violations must still be detected while closing
+        sc.reactions = {rng.choice([2, 3]): [('close', 1000, ('b', b'bye'))]}
+    elif r < 0.4:
+        sc.reactions = gen_core.gen_reactions(rng, 8, density=0.3, allow_close=False, allow_bad=False)
     return sc, expected, bad
 
 
@@ -58,7 +64,8 @@ def judge(res, cls, js, line, real, expected, bad):
         return fail('connection did not end with a non-graceful Disconnected: %s' % evs[-1:])
     # what the library wrote after the ProtocolError event
     i = tk.index(perr[0])
-    written = [t for t in tk[i:] if t.startswith(('W:', 'Z:'))]
+    # writes made by the library itself (an application call is followed by its R: result token)
+    written = [t for k, t in enumerate(tk) if k >= i and t.startswith(('W:', 'Z:')) and not (k + 1 < len(tk) and tk[k + 1].startswith('R:'))]
     if len(written) > 1:
         return fail('more than one frame written after the violation')
     for w in written:
@@ -134,20 +141,24 @@ def explore(res, tier, seed, model_ok=True):
     # ---- all close codes ------------------------------------------------------------------
     step = 1 if tier == 'thorough' else 7
     codes = sorted(set(list(range(0, 65536, step)) + list(range(990, 1030)) + list(range(2990, 3010)) + [4999, 5000, 65535]))
-    cscs = []
-    for c in codes:
-        sc = Scenario([], prate=0)
-        sc.env = reads([sc.good_reply() + server_frame(8, close_payload(c, b'r'))]) + [('wait', 1, ('eof',))]
-        cscs.append(sc)
+    cscs, cmeta = [], []
+    for closing_first in (False, True):
+        for c in (codes if not closing_first else codes[::3] + list(range(990, 1030)) + list(range(2990, 3010))):
+            sc = Scenario([], prate=0)
+            sc.env = reads([sc.good_reply() + server_frame(8, close_payload(c, b'r'))]) + [('wait', 1, ('eof',))]
+            if closing_first:
+                sc.env = reads([sc.good_reply(), server_frame(8, close_payload(c, b'r'))]) + [('wait', 1, ('eof',))]
+                sc.reactions = {2: [('close', 1000, ('b', b''))]}
+            cscs.append(sc); cmeta.append(c)
     cp = coreutil.run_pairs(cscs, model_ok)
-    for (js, line, real, model), c in zip(cp, codes):
+    for (js, line, real, model), c in zip(cp, cmeta):
         if isinstance(real, dict):
             res.crashes.append(real); continue
         res.case(('code', c))
         reserved = c < 1000 or c in (1004, 1005, 1006) or 1014 <= c <= 2999
         evs = events(real)
         perr = [e for e in evs if e.startswith('E:protocol_error')]
-        closing = [e for e in evs if e.startswith('E:closing')]
+        closing = [e for e in evs if e.startswith(('E:closing', 'E:closed'))]
         if reserved and (len(perr) != 1 or closing):
             res.failures.append(dict(cls='close-code', what='reserved close code %d accepted' % c, input=line[:2000], scenario=js))
         if not reserved and (perr or len(closing) != 1):
